@@ -247,7 +247,7 @@ func genEvent(rt *rapid.T, rules []RuleC, allowContainers bool) EventC {
 }
 
 func genNormal(rt *rapid.T) Case {
-	c := Case{Workers: uni(rt, 1, 4, "workers")}
+	c := Case{Workers: uni(rt, 1, 4, "workers"), Reused: uni(rt, 0, 3, "reused") == 0}
 	allowContainers := pct(rt, 20, "containers")
 	n := uni(rt, 1, 8, "nrules")
 	names := make([]string, n)
